@@ -142,6 +142,28 @@ def oracle(o):
         bad.append("pre-callbacks on expr/query/table factor/statement nodes differ from the nodes of the tree in document order: "
                    "%d nodes in the tree, %d entered; first difference at position %d (tree: %s, entered: %s)"
                    % (len(want), len(got), i, want[i][0] if i < len(want) else None, got[i][0] if i < len(got) else None))
+    else:
+        # nesting: when a node is left, exactly the nodes below it have been entered since it was entered
+        paths = [q for _, _, q in nodes]
+        desc = [0] * len(paths)
+        for i, q in enumerate(paths):
+            j = i + 1
+            while j < len(paths) and paths[j][:len(q)] == q:
+                j += 1
+            desc[i] = j - i - 1
+        seen_pre, stack = 0, []
+        for ph, h, x in tr:
+            if h == REL:
+                continue
+            if ph == 0:
+                stack.append(seen_pre)
+                seen_pre += 1
+            elif stack:
+                i = stack.pop()
+                if seen_pre != i + 1 + desc[i]:
+                    bad.append("%s node left after %d of its %d descendant nodes were entered: enter/leave callbacks are not nested around the children"
+                               % (h, seen_pre - i - 1, desc[i]))
+                    break
     relgot = {}
     for ph, h, x in tr:
         if ph == 0 and h == REL:
@@ -440,8 +462,8 @@ def correspondence(run, items):
         s = items[i]
         I2 = Interner()
         rc, o = coq_eval(HEADER + I2.header(), "c16_code visit_env %s" % case_term(s, I2))
-        code = re.search(r"=\s*(\d+)", o)
-        code = int(code.group(1)) if code else None
+        codes = re.findall(r"=\s*(\d+)\s*:\s*N\b", o.replace("\n", " "))
+        code = int(codes[-1]) if codes else None
         meaning = {1: "full trace differs from Visit.walk", 2: "trace with Break differs from Visit.walkB", 3: "mutating walk differs from Visit.walk_mut"}.get(code, "?")
         out.append({"input": s["sql"], "dialect": s["dialect"], "code": code, "meaning": meaning})
     run.sample({"correspondence": "walk", "sql": items[0]["sql"], "dialect": items[0]["dialect"], "agree": 0 not in bad})
